@@ -268,6 +268,56 @@ def lemma_root_min(heap, n, k):
     props=['C03'],
   ),
 
+  # release closure created per dispatch (C04: idempotent release)
+  'HeapBalancerSink._AsyncProcessRequestImpl.PutWrapper': dict(
+    captures={'self': 'HeapBalancerSink', 'n': 'Node', 'put_called': 'list[bool]'},
+    requires=['HeapInv(self)', 'allocated(n)', 'n != self._heap[0]', 'len(put_called) == 1',
+              # token: an un-released wrapper accounts for one outstanding request of its node
+              # (counting argument: DESIGN C04; g_out changes only here and at dispatch, by frame conditions)
+              'implies(not put_called[0], n.g_out >= 1)'],
+    ensures=['HeapInv(self)', 'put_called[0]',
+             'implies(old(put_called[0]), forall_ref(r, Node, r.g_out == old(r.g_out) and r.load == old(r.load), r.g_out) and self._size == old(self._size))',
+             'implies(not old(put_called[0]), n.g_out == old(n.g_out) - 1)',
+             'forall_ref(r, Node, implies(r != n, r.g_out == old(r.g_out)), r.g_out)'],
+    modifies=['Node.load', 'Node.index', 'Node.g_out', 'list[Node]', 'list[bool]', 'Channel.state',
+              'HeapBalancerSink._size'],
+    props=['C04'],
+  ),
+
+  'HeapBalancerSink._AsyncProcessRequestImpl': dict(
+    cls='HeapBalancerSink',
+    params={'sink_stack': 'ClientMessageSinkStack', 'msg': 'Message', 'stream': 'any', 'headers': 'any'},
+    locals={'put_called': 'list[bool]', 'channel': 'Channel'},
+    requires=['HeapInv(self)'],
+    ensures=[],
+    modifies=['Node.load', 'Node.index', 'Node.downq', 'Node.g_inq', 'Node.g_rank', 'Node.g_out', 'list[Node]',
+              'HeapBalancerSink._downq', 'HeapBalancerSink._size', 'deque[tuple[any,any]]',
+              'dict[str,any]', 'Channel.state', 'list[bool]'],
+    allocates=True,
+    ghost=[
+      {'after': 'n = self.__Get()', 'do': [
+        'g_sel_out = n.g_out',
+        # C03 (taken from the statement): the chosen member is a minimum of (load, index) over the heap,
+        # and it is open unless every member is marked down
+        'prove(forall(k, 1, self._size + 1, hle(n, self._heap[k])), "chosen-is-least")',
+        'prove(n.channel.state == ChannelState.Open or forall(k, 1, self._size + 1, self._heap[k].load >= 0), "open-unless-all-down")',
+        'prove(implies(n.load < 0, forall(k, 1, self._size + 1, implies(self._heap[k].load < 0, n.g_out <= self._heap[k].g_out))), "fewest-outstanding")',
+      ]},
+      {'before': 'n.load += 1', 'do': ['assume(n.g_out < 2147483645)']},
+      {'after': 'n.load += 1', 'do': ['n.g_out = n.g_out + 1']},
+      {'after': 'channel = self._no_members', 'do': [
+        'prove(old(self._size) == 0 and self._size == 0, "no-members-only-when-empty")']},
+      {'after': 'channel = n.channel', 'do': [
+        'prove(old(self._size) != 0, "member-chosen-when-non-empty")',
+        'prove(channel == n.channel and n.g_out == g_sel_out + 1, "dispatch-accounted")',
+        'prove(msg.properties["__Endpoint"] == n.endpoint, "endpoint-stamped")',
+        'prove(len(sink_stack._stack) == old(len(sink_stack._stack)) + 1 and sink_stack._stack[len(sink_stack._stack) - 1][0] == self, "release-pushed")',
+        'prove(HeapInv(self), "invariant-before-forward")',
+      ]},
+    ],
+    props=['C03', 'C04'],
+  ),
+
   'HeapBalancerSink._FindNodeByEndpoint': dict(
     cls='HeapBalancerSink', params={'endpoint': 'any'}, returns='Node?',
     requires=['HI_shape(self)'],
@@ -294,6 +344,15 @@ def lemma_root_min(heap, n, k):
 }
 
 EXTERNS = {
+  # handing the request to the member's channel: arbitrary downstream behaviour, including an
+  # immediate reply that re-enters the balancer through the pushed release closure.  It is the
+  # last statement of the dispatch, so nothing is assumed about the state afterwards.
+  'Channel.AsyncProcessRequest': dict(
+    params=[('sink_stack', 'ClientMessageSinkStack'), ('msg', 'Message'), ('stream', 'any'), ('headers', 'any')],
+    modifies=['Node.load', 'Node.index', 'Node.downq', 'Node.g_inq', 'Node.g_rank', 'Node.g_out', 'list[Node]',
+              'HeapBalancerSink._downq', 'HeapBalancerSink._size', 'deque[tuple[any,any]]',
+              'dict[str,any]', 'Channel.state', 'list[bool]'],
+    allocates=True),
   'ChannelFactory.__call__': dict(params=[], returns='Channel', fresh=True, allocates=True,
                                   notes='functools.partial(next_provider.CreateSink, properties): builds a new member channel; touches no existing object'),
   'AsyncResult.Complete': dict(params=[], returns='AsyncResult'),
